@@ -155,4 +155,18 @@ def handleLive : List String → Option String
     pure s!"{m}\t{b2s v}"
   | _ => none
 
+/-- the real arp --live generator chain under a slow consumer: the consumer-side gap between the last request
+    of a pass and the first of the next is at least the rescan interval (2 ms tolerance for reading the
+    clock on two sides of a channel operation) -/
+def handleLiveChain : List String → Option String
+  | [_ones, rescanMs, _perReq, _passes, _filter, obs] => do
+    let rescan ← rescanMs.toNat?
+    let v := match obs.splitOn "=" with
+      | ["mingap_us", g] => match g.toInt? with
+        | some us => decide (us + 2000 ≥ (rescan : Int) * 1000)
+        | none => false
+      | _ => false
+    pure s!"{obs}\t{if v then "1" else "0"}"
+  | _ => none
+
 end Driver
